@@ -885,6 +885,16 @@ class Interp:
                 return this_cell
         # external
         bname = name.split('<')[0]
+        if bname in ('std::isfinite', 'isfinite', 'std::isnan', 'isnan', 'std::isinf', 'isinf', '__builtin_isfinite', '__builtin_isnan', '__builtin_isinf') and len(args) == 1:
+            # the engines compute over the reals: every value is finite, except the symbol that stands for a quiet NaN
+            v = self.eval(args[0])
+            v = v.value if isinstance(v, Cell) else v
+            is_nan = NAN_SEEN[0] and isinstance(v, Poly) and NAN_NAME in v.vars()
+            if bname.endswith('isfinite'):
+                return 0 if is_nan else 1
+            if bname.endswith('isnan'):
+                return 1 if is_nan else 0
+            return 0
         fnname = MATH_FUNCS.get(bname)
         if fnname and len(args) == 1:
             a = self.eval(args[0])
@@ -1939,6 +1949,25 @@ class Interp:
                 v = self.eval(de)
                 dims.append(v)
             cell.value = self.make_array(d.get('name'), dims)
+            if init is not None and init['k'] == 'InitListExpr' and isinstance(cell.value, ArrayView):
+                # rows of a two-dimensional array: each a nested list, missing trailing elements value-initialised
+                av = cell.value
+                et = base_type(t)
+                while et.endswith(']'):
+                    et = et[:et.rindex('[')].strip()
+                width = _prod(av.dims[1:])
+                if is_int_type(et) or is_float_type(et):
+                    for i in range(av.region.size):
+                        av.region.cell(i).value = self.zero_of(et)
+                for r, rowinit in enumerate(init.get('c', [])):
+                    if rowinit['k'] == 'InitListExpr':
+                        for j, k_ in enumerate(rowinit.get('c', [])):
+                            if k_['k'] == 'InitListExpr':
+                                raise Unsupported('initialiser of an array of more than two dimensions at %s' % self.loc(d))
+                            av.region.cell(r * width + j).value = self.eval(k_)
+                    else:
+                        av.region.cell(r).value = self.eval(rowinit)  # brace elision: a flat list
+                return
             if init is not None and init['k'] == 'InitListExpr':
                 vals = [self.eval(c) for c in init.get('c', [])]
                 for i, v in enumerate(vals):
